@@ -949,7 +949,8 @@ def gen_item_C12(rng, idx, tier):
         (['v_rms', 'v_cen'] if nd == 3 else [])
     fields = None if rng.random() < 0.4 else rng.sample(allf, rng.randint(1, len(allf)))
     return {'case': case, 'ops': ops, 'fields': fields, 'verbose': rng.random() < 0.3, 'mode': mode,
-            'shift': rng.randint(1, max(1, case['shape'][-1] - 1)), 'sub': rng.random() < 0.25, 'dx': rng.choice([None, 2.0])}
+            'shift': rng.randint(1, max(1, case['shape'][-1] - 1)), 'sub': rng.random() < 0.25, 'dx': rng.choice([None, 2.0]),
+            'wcsmd': rng.random() < 0.3}
 
 
 def eval_C12(item):
@@ -968,6 +969,15 @@ def eval_C12(item):
     md = {'data_unit': u.Jy}
     if item['dx'] is not None:
         md['spatial_scale'] = item['dx'] * u.arcsec
+    if item.get('wcsmd'):
+        # a world coordinate system in the metadata (world = pixel, so that positions stay comparable): centroids go
+        # through it, everything else must be as without it
+        from astropy.wcs import WCS
+        w_ = WCS(naxis=nd)
+        w_.wcs.crpix = [1.0] * nd
+        w_.wcs.cdelt = [1.0] * nd
+        w_.wcs.crval = [0.0] * nd
+        md['wcs'] = w_
     catf = pp_catalog if nd == 2 else ppv_catalog
     cls = PPStatistic if nd == 2 else PPVStatistic
     structures = d
